@@ -4,6 +4,7 @@ import (
 	"go/constant"
 	"go/token"
 	"go/types"
+	"sort"
 	"strings"
 
 	"golang.org/x/tools/go/ssa"
@@ -1679,5 +1680,667 @@ func runVectorizeDeclinesSliced(c *Ctx, rule string) {
 		c.OK(rule, construct, fn.Pos(), "the vectorizing walk runs only where no dag.Slicer was found")
 	} else {
 		c.Fail(rule, construct, fn.Pos(), "a dag.Slicer is looked for but the outcome does not keep the vectorizing walk from running: `count() by <pool key>` keeps the slicer in front of the parallel scans, the vector scanner is handed partitions and the query fails with `vam.objectPuller encountered unnamed object: meta.Partition` once all objects have vectors")
+	}
+}
+
+// ---- C03-E1: slot-aligned children inherit their parent's nulls in the vector cache.
+//
+// A record's fields and an error's payload are stored with one value per non-null slot of the
+// parent, so when the cache rebuilds full-length vectors the child must be flattened against the
+// parent's flattened nulls.  (Arrays, sets, maps and unions address their children through offsets
+// or tags and start a new null space.)
+func runSlotAlignedChildrenInheritNulls(c *Ctx, rule string) {
+	p := c.P
+	c.Rule(rule, "in vcache.flattenNulls the children of a record and of an error are flattened against the result of the parent's nulls.flatten, not against nil: their vectors hold one value per non-null parent slot")
+	fn := p.Func("runtime/vcache.flattenNulls")
+	if fn == nil {
+		c.Undecided(rule, "runtime/vcache.flattenNulls", "anchor does not resolve")
+		return
+	}
+	found := map[string]bool{}
+	for _, b := range fn.Blocks {
+		for _, in := range b.Instrs {
+			ta, ok := in.(*ssa.TypeAssert)
+			if !ok {
+				continue
+			}
+			kind := namedOf(ta.AssertedType)
+			if kind != "runtime/vcache.record" && kind != "runtime/vcache.error_" {
+				continue
+			}
+			for _, ci := range allCalls(fn) {
+				if ci.Common().StaticCallee() != fn || !assertDominates(ta, ci.(ssa.Instruction).Block()) {
+					continue
+				}
+				found[kind] = true
+				arg := ci.Common().Args[2]
+				construct := "runtime/vcache.flattenNulls child of " + strings.TrimPrefix(kind, "runtime/vcache.")
+				if dependsOn(arg, func(v ssa.Value) bool {
+					call, ok := v.(*ssa.Call)
+					return ok && calleeName(call.Common()) == "(*runtime/vcache.nulls).flatten"
+				}) {
+					c.OK(rule, construct, ci.Pos(), "flattened against the parent's flattened nulls")
+				} else {
+					c.Fail(rule, construct, ci.Pos(), "the child is flattened against nil although it holds one value per non-null slot of its parent: `{e:error(\"x\")} null({e:error(string)}) {e:error(\"y\")}` written to VNG and read through the vector cache indexes a two-value vector at slot 2 and panics, while the row reader returns the three values")
+				}
+			}
+		}
+	}
+	for _, k := range []string{"runtime/vcache.record", "runtime/vcache.error_"} {
+		if !found[k] {
+			c.Undecided(rule, "runtime/vcache.flattenNulls child of "+strings.TrimPrefix(k, "runtime/vcache."), "the case was not found")
+		}
+	}
+}
+
+// ---- C03-P2: the vector cache loads at least what it projects.
+//
+// vcache.project decides, per kind of shadow vector, whether the projection path continues into
+// the children (records, named, error) or stops and the child is built whole (array, set, map,
+// union: it passes nil).  The three walks that prepare the data - loadVector, fetchNulls and
+// flattenNulls - must not be narrower: where project builds the child whole, they must load it
+// whole too.  Passing the remaining path down instead loads only the projected field of an
+// array's element records, and project then builds a record out of nil vectors.
+func runVcacheLoadsWhatItProjects(c *Ctx, rule string) {
+	p := c.P
+	c.Rule(rule, "for every kind of shadow vector for which vcache.project passes a nil path to the children (builds them whole), loadVector, fetchNulls and flattenNulls pass a nil path as well: everything project touches has been loaded and its nulls flattened")
+	ref := p.Func("runtime/vcache.project")
+	walks := []string{"(*runtime/vcache.loader).loadVector", "(*runtime/vcache.loader).fetchNulls", "runtime/vcache.flattenNulls"}
+	if ref == nil {
+		c.Undecided(rule, "runtime/vcache.project", "anchor does not resolve")
+		return
+	}
+	// kind -> "nil" | "paths" | "" (no child call)
+	classify := func(fn *ssa.Function) map[string]string {
+		out := map[string]string{}
+		for _, b := range fn.Blocks {
+			for _, in := range b.Instrs {
+				ta, ok := in.(*ssa.TypeAssert)
+				if !ok || !strings.HasPrefix(namedOf(ta.AssertedType), "runtime/vcache.") {
+					continue
+				}
+				kind := namedOf(ta.AssertedType)
+				for _, ci := range allCalls(fn) {
+					g := ci.Common().StaticCallee()
+					if g == nil || p.PkgOf(g) != "runtime/vcache" || !assertDominates(ta, ci.(ssa.Instruction).Block()) {
+						continue
+					}
+					for _, a := range ci.Common().Args {
+						if namedOf(a.Type()) != "runtime/vcache.Path" {
+							continue
+						}
+						if isNilConst(stripConv(a)) {
+							if out[kind] == "" {
+								out[kind] = "nil"
+							}
+						} else {
+							out[kind] = "paths"
+						}
+					}
+				}
+			}
+		}
+		return out
+	}
+	refKinds := classify(ref)
+	whole := 0
+	for _, k := range refKinds {
+		if k == "nil" {
+			whole++
+		}
+	}
+	if whole < 3 {
+		c.Undecided(rule, "runtime/vcache.project", "fewer than three kinds built whole were found ("+sprint(whole)+")")
+		return
+	}
+	for _, name := range walks {
+		fn := p.Func(name)
+		if fn == nil {
+			c.Undecided(rule, name, "anchor does not resolve")
+			continue
+		}
+		got := classify(fn)
+		var kinds []string
+		for k := range refKinds {
+			kinds = append(kinds, k)
+		}
+		sort.Strings(kinds)
+		for _, k := range kinds {
+			if refKinds[k] != "nil" {
+				continue
+			}
+			construct := fnName(fn) + " below a " + strings.TrimPrefix(k, "runtime/vcache.")
+			switch got[k] {
+			case "paths":
+				c.Fail(rule, construct, fn.Pos(), "project builds the children of this kind whole (nil path) but this walk passes the remaining projection path down: for a pool holding `[{n:1,x:\"a\"}]`, `sum(n)` over vectors loads only n of the element records, project builds the whole element record and dereferences the unloaded x - the process dies")
+			default:
+				c.OK(rule, construct, fn.Pos(), "children handled whole")
+			}
+		}
+	}
+}
+
+// ---- C09-N2: the vector count() by string looks at the nulls of every vector it counts.
+//
+// The sequential runtime reports a group for null keys.  Each encoding carries its nulls apart
+// from its values (String.Nulls, Dict.Nulls next to Counts, which cover non-null slots only,
+// Const.Nulls), so each counting path must read that field; a path that does not either drops the
+// null group or counts null slots under a value.
+func runVectorCountReadsNulls(c *Ctx, rule string) {
+	p := c.P
+	c.Rule(rule, "each counting path of vam/op count-by-string (plain strings, dictionary, constant) reads the Nulls field of the vector it counts, so null keys form their own group as in the sequential runtime")
+	readsNulls := func(fn *ssa.Function, of func(ssa.Value) bool) bool {
+		for _, b := range fn.Blocks {
+			for _, in := range b.Instrs {
+				if fa, ok := in.(*ssa.FieldAddr); ok && fieldName(fa.X.Type(), fa.Field) == "Nulls" && of(fa.X) {
+					return true
+				}
+			}
+		}
+		return false
+	}
+	n := 0
+	for _, name := range []string{"(*runtime/vam/op.countByString).count", "(*runtime/vam/op.countByString).countFixed"} {
+		fn := p.Func(name)
+		if fn == nil || len(fn.Params) < 2 {
+			c.Undecided(rule, name, "anchor does not resolve")
+			continue
+		}
+		n++
+		vec := fn.Params[1]
+		if readsNulls(fn, func(v ssa.Value) bool { return v == vec }) {
+			c.OK(rule, name+" reads the vector's nulls", fn.Pos(), "Nulls consulted")
+		} else {
+			c.Fail(rule, name+" reads the vector's nulls", fn.Pos(), "the slots are counted without looking at the vector's Nulls: null keys are counted under a value (\"\" or the constant) instead of forming the null group - `count() by s` differs once the objects have vector copies")
+		}
+	}
+	up := p.Func("(*runtime/vam/op.CountByString).update")
+	if up == nil {
+		c.Undecided(rule, "(*runtime/vam/op.CountByString).update", "anchor does not resolve")
+		return
+	}
+	for _, b := range up.Blocks {
+		for _, in := range b.Instrs {
+			ta, ok := in.(*ssa.TypeAssert)
+			if !ok || namedOf(ta.AssertedType) != "vector.Dict" {
+				continue
+			}
+			n++
+			construct := "(*runtime/vam/op.CountByString).update dictionary case reads the vector's nulls"
+			if readsNulls(up, func(v ssa.Value) bool {
+				return dependsOn(v, func(w ssa.Value) bool { return w == ta })
+			}) {
+				c.OK(rule, construct, ta.Pos(), "Nulls consulted")
+			} else {
+				c.Fail(rule, construct, ta.Pos(), "a dictionary's Counts cover its non-null slots only and its Nulls are not read: the group for null keys is dropped - `count() by s` over {s:\"a\"} {s:null(string)} {s:\"b\"} returns two groups with vectors and three without")
+			}
+		}
+	}
+	if n < 3 {
+		c.Undecided(rule, "vam/op count-by-string counting paths", "fewer than the three known paths found")
+	}
+}
+
+// ---- C10-I1: sorted-input streaming of summarize is enabled by its first key only.
+//
+// groupby.Aggregator streams results as soon as the value of grouping key 0 advances.  The
+// optimizer may tell it that the input is sorted (Summarize.InputSortDir) only when the sort key
+// is that first grouping key; matching any grouping key makes `count() by k, ts` over input sorted
+// on ts emit a group every time k changes, i.e. the same group several times with partial counts.
+func runInputSortDirFirstKeyOnly(c *Ctx, rule string) {
+	p := c.P
+	c.Rule(rule, "in optimizer.propagateSortKeyOp the store to Summarize.InputSortDir is reached only for the first grouping key (a slice of op.Keys bounded by 1, or index 0): the aggregator streams on grouping key 0 alone")
+	fn := p.Func("(*compiler/optimizer.Optimizer).propagateSortKeyOp")
+	if fn == nil {
+		c.Undecided(rule, "(*compiler/optimizer.Optimizer).propagateSortKeyOp", "anchor does not resolve")
+		return
+	}
+	n := 0
+	for _, b := range fn.Blocks {
+		for _, in := range b.Instrs {
+			st, ok := in.(*ssa.Store)
+			if !ok {
+				continue
+			}
+			fa, ok := st.Addr.(*ssa.FieldAddr)
+			if !ok || fieldName(fa.X.Type(), fa.Field) != "InputSortDir" {
+				continue
+			}
+			n++
+			construct := "(*compiler/optimizer.Optimizer).propagateSortKeyOp sets InputSortDir"
+			// the keys examined on the way here: IndexAddr into a slice derived from op.Keys
+			okAll, any := true, false
+			for _, bb := range fn.Blocks {
+				for _, ii := range bb.Instrs {
+					ia, isIA := ii.(*ssa.IndexAddr)
+					if !isIA || !bb.Dominates(b) {
+						continue
+					}
+					fromKeys := dependsOn(ia.X, func(v ssa.Value) bool {
+						f, ok := v.(*ssa.FieldAddr)
+						return ok && fieldName(f.X.Type(), f.Field) == "Keys" && namedOf(f.X.Type()) == "compiler/ast/dag.Summarize"
+					})
+					if !fromKeys {
+						continue
+					}
+					any = true
+					if k, isConst := ia.Index.(*ssa.Const); isConst && k.Int64() == 0 {
+						continue
+					}
+					// a loop index: fine only over a slice whose upper bound is at most 1
+					bounded := dependsOn(ia.X, func(v ssa.Value) bool {
+						sl, ok := v.(*ssa.Slice)
+						if !ok || sl.High == nil {
+							return false
+						}
+						if k, ok := sl.High.(*ssa.Const); ok {
+							return k.Int64() <= 1
+						}
+						// min(1, len(..))
+						return dependsOn(sl.High, func(w ssa.Value) bool {
+							call, ok := w.(*ssa.Call)
+							if !ok {
+								return false
+							}
+							if bi, ok := call.Call.Value.(*ssa.Builtin); ok && bi.Name() == "min" {
+								for _, a := range call.Call.Args {
+									if k, ok := a.(*ssa.Const); ok && k.Int64() <= 1 {
+										return true
+									}
+								}
+							}
+							return false
+						})
+					})
+					if !bounded {
+						okAll = false
+					}
+				}
+			}
+			switch {
+			case !any:
+				c.Undecided(rule, construct, "the grouping keys examined before the store were not found")
+			case okAll:
+				c.OK(rule, construct, st.Pos(), "only the first grouping key is examined")
+			default:
+				c.Fail(rule, construct, st.Pos(), "the sort key is matched against every grouping key, but the aggregator streams on grouping key 0: `count() by k, ts` over 150 records sorted on ts returns {k:0,ts:0} twice (counts 25 and 50) instead of once with 75")
+			}
+		}
+	}
+	if n == 0 {
+		c.Undecided(rule, "(*compiler/optimizer.Optimizer).propagateSortKeyOp sets InputSortDir", "no store to InputSortDir found")
+	}
+}
+
+// ---- C19-K8: a path segment that is "." or ".." is encoded by the client.
+//
+// url.PathEscape leaves dots alone, and both path.Clean in the client and the router on the
+// server remove dot segments: `RemoveBranch(pool, "..")` became `DELETE /pool/<id>` and deleted
+// the pool.  urlPath must single out the two dot segments and give them an encoded form.
+func runClientEncodesDotSegments(c *Ctx, rule string) {
+	p := c.P
+	c.Rule(rule, "api/client.urlPath compares each segment with \".\" and \"..\" and appends something other than the PathEscape of the segment for them: a branch or pool named \"..\" stays one path segment on its way to the service instead of removing its parent segment")
+	fn := p.Func("api/client.urlPath")
+	if fn == nil {
+		c.Undecided(rule, "api/client.urlPath", "anchor does not resolve")
+		return
+	}
+	seen := map[string]bool{}
+	for _, b := range fn.Blocks {
+		for _, in := range b.Instrs {
+			cmp, ok := in.(*ssa.BinOp)
+			if !ok || cmp.Op != token.EQL {
+				continue
+			}
+			for _, v := range []ssa.Value{cmp.X, cmp.Y} {
+				if k, ok := v.(*ssa.Const); ok && k.Value != nil && k.Value.Kind() == constant.String {
+					s := constant.StringVal(k.Value)
+					if s == "." || s == ".." {
+						// the true edge must lead somewhere that does not just PathEscape
+						for _, r := range *cmp.Referrers() {
+							if iff, ok := r.(*ssa.If); ok {
+								t := iff.Block().Succs[0]
+								escapes := false
+								for _, ti := range t.Instrs {
+									if ci, ok := ti.(ssa.CallInstruction); ok && calleeName(ci.Common()) == "net/url.PathEscape" {
+										escapes = true
+									}
+								}
+								if !escapes {
+									seen[s] = true
+								}
+							}
+						}
+					}
+				}
+			}
+		}
+	}
+	construct := "api/client.urlPath dot segments"
+	if seen["."] && seen[".."] {
+		c.OK(rule, construct, fn.Pos(), "\".\" and \"..\" are singled out and not passed through PathEscape")
+	} else {
+		c.Fail(rule, construct, fn.Pos(), "dot segments are escaped like any other name, i.e. not at all: `RemoveBranch(pool, \"..\")` through the service is sent as DELETE /pool/<id>/branch/.., cleaned to DELETE /pool/<id>, and deletes the whole pool with a nil error, where direct access answers `branch not found`")
+	}
+}
+
+// ---- C11-S2: the ZSON string decoder reads relative to its cursor, within bounds.
+//
+// parseStringBytes walks a string literal with a cursor k.  A read of bytes[<constant>] inside
+// the loop inspects the start of the literal instead of the current position, and a slice
+// bytes[k+c:] with c > 0 needs a test relating len(bytes) to k first; `"\ud800"` (a lone high
+// surrogate at the end) used to slice [8:6] and panic.
+func runStringDecoderCursor(c *Ctx, rule string) {
+	p := c.P
+	c.Rule(rule, "inside the decode loop of zson.parseStringBytes every index into the input depends on the cursor, and every slice that starts beyond the cursor (bytes[k+c:], c > 0) is dominated by a test that relates len(bytes) to the cursor: malformed escapes at the end of a literal are errors, not slice-bounds panics")
+	fn := p.Func("zson.parseStringBytes")
+	if fn == nil || len(fn.Params) < 2 {
+		c.Undecided(rule, "zson.parseStringBytes", "anchor does not resolve")
+		return
+	}
+	input := fn.Params[1]
+	isLen := func(v ssa.Value) bool {
+		call, ok := v.(*ssa.Call)
+		if !ok {
+			return false
+		}
+		b, ok := call.Call.Value.(*ssa.Builtin)
+		return ok && b.Name() == "len" && len(call.Call.Args) == 1 && call.Call.Args[0] == input
+	}
+	isPhi := func(v ssa.Value) bool { _, ok := v.(*ssa.Phi); return ok }
+	n, bad := 0, 0
+	for _, b := range fn.Blocks {
+		for _, in := range b.Instrs {
+			if !inCycle(fn, in) {
+				continue
+			}
+			switch x := in.(type) {
+			case *ssa.IndexAddr:
+				if x.X != input {
+					continue
+				}
+				n++
+				if !dependsOn(x.Index, isPhi) {
+					bad++
+					c.Fail(rule, "zson.parseStringBytes reads a fixed position inside the decode loop", x.Pos(), "the input is indexed with a value that does not depend on the cursor: the check looks at the start of the literal instead of the current escape, so `\"\\ud800\"` passes it and the following slice runs past the end (slice bounds out of range [8:6])")
+				}
+			case *ssa.Slice:
+				if x.X != input || x.Low == nil {
+					continue
+				}
+				add, ok := x.Low.(*ssa.BinOp)
+				if !ok || add.Op != token.ADD {
+					continue // bytes[k:] - k never exceeds len(bytes)
+				}
+				n++
+				guarded := false
+				for _, gb := range fn.Blocks {
+					if len(gb.Instrs) == 0 || gb == b || !gb.Dominates(b) {
+						continue
+					}
+					iff, ok := gb.Instrs[len(gb.Instrs)-1].(*ssa.If)
+					if !ok {
+						continue
+					}
+					if dependsOn(iff.Cond, isLen) && dependsOn(iff.Cond, isPhi) {
+						guarded = true
+					}
+				}
+				if !guarded {
+					bad++
+					c.Fail(rule, "zson.parseStringBytes slices beyond the cursor unchecked", x.Pos(), "the input is sliced from beyond the cursor without a dominating test that relates len(bytes) to the cursor: a high surrogate escape at the end of a literal (`\"\\ud800\"`) panics with slice bounds out of range")
+				}
+			}
+		}
+	}
+	switch {
+	case n < 3:
+		c.Undecided(rule, "zson.parseStringBytes", "fewer than three cursor-relative reads found ("+sprint(n)+")")
+	case bad == 0:
+		c.OK(rule, "zson.parseStringBytes cursor-relative reads", fn.Pos(), sprint(n)+" reads, all relative to the cursor and bounded")
+	}
+}
+
+// ---- C11-V2: four places where a text reader must test before it indexes or encodes.
+//
+// Each was a panic reachable from input text (reader + zio.Copy): the empty backtick string, an
+// enum named by a string that is not one of its symbols, a ZJSON record value with fewer elements
+// than its type has fields, and an enum selector >= 2^63 passing Validate through a signed
+// conversion.
+func runReaderSanityTests(c *Ctx, rule string) {
+	p := c.P
+	c.Rule(rule, "(a) scanBacktickString indexes its result only after a test of its length; (b) stringToEnum builds an enum value only where TypeEnum.Lookup found the symbol; (c) zjsonio decodeRecord compares the number of values with the number of fields before it closes the container; (d) zed.checkEnum compares the selector with the symbol count without converting it to a signed integer")
+	lenOf := func(of func(ssa.Value) bool) func(ssa.Value) bool {
+		return func(v ssa.Value) bool {
+			call, ok := v.(*ssa.Call)
+			if !ok {
+				return false
+			}
+			b, ok := call.Call.Value.(*ssa.Builtin)
+			return ok && b.Name() == "len" && len(call.Call.Args) == 1 && of(call.Call.Args[0])
+		}
+	}
+	// (a)
+	if fn := p.Func("(*zson.Lexer).scanBacktickString"); fn == nil {
+		c.Undecided(rule, "(*zson.Lexer).scanBacktickString", "anchor does not resolve")
+	} else {
+		n, bad := 0, 0
+		for _, b := range fn.Blocks {
+			for _, in := range b.Instrs {
+				ia, ok := in.(*ssa.IndexAddr)
+				if !ok {
+					continue
+				}
+				if _, isConst := ia.Index.(*ssa.Const); !isConst {
+					continue
+				}
+				n++
+				guarded := false
+				for _, gb := range fn.Blocks {
+					if len(gb.Instrs) == 0 || !gb.Dominates(b) {
+						continue
+					}
+					if iff, ok := gb.Instrs[len(gb.Instrs)-1].(*ssa.If); ok && dependsOn(iff.Cond, lenOf(func(v ssa.Value) bool { return v == ia.X || sameVar(v, ia.X) })) {
+						guarded = true
+					}
+				}
+				// short-circuit `len(b) > 0 && b[0] == ..` puts the index in the block the length test branches to
+				if !guarded {
+					for _, pb := range b.Preds {
+						if len(pb.Instrs) > 0 {
+							if iff, ok := pb.Instrs[len(pb.Instrs)-1].(*ssa.If); ok && len(b.Preds) == 1 && dependsOn(iff.Cond, lenOf(func(ssa.Value) bool { return true })) {
+								guarded = true
+							}
+						}
+					}
+				}
+				if !guarded {
+					bad++
+					c.Fail(rule, "(*zson.Lexer).scanBacktickString indexes its result", ia.Pos(), "the scanned bytes are indexed at a fixed position without a test of their length: the empty backtick string (two backticks) panics with index out of range")
+				}
+			}
+		}
+		if n > 0 && bad == 0 {
+			c.OK(rule, "(*zson.Lexer).scanBacktickString indexes its result", fn.Pos(), "after a length test")
+		} else if n == 0 {
+			c.OK(rule, "(*zson.Lexer).scanBacktickString indexes its result", fn.Pos(), "no fixed-position index")
+		}
+	}
+	// (b)
+	if fn := p.Func("zson.stringToEnum"); fn == nil {
+		c.Undecided(rule, "zson.stringToEnum", "anchor does not resolve")
+	} else {
+		var lookups []ssa.Value
+		for _, ci := range allCalls(fn) {
+			if calleeName(ci.Common()) == "(*super.TypeEnum).Lookup" {
+				if v, ok := ci.(ssa.Value); ok {
+					lookups = append(lookups, v)
+				}
+			}
+		}
+		ok, found := false, false
+		for _, b := range fn.Blocks {
+			for _, in := range b.Instrs {
+				al, isAlloc := in.(*ssa.Alloc)
+				if !isAlloc || namedOf(al.Type()) != "zson.Enum" {
+					continue
+				}
+				found = true
+				for _, gb := range fn.Blocks {
+					if len(gb.Instrs) == 0 || !gb.Dominates(b) {
+						continue
+					}
+					if iff, isIf := gb.Instrs[len(gb.Instrs)-1].(*ssa.If); isIf {
+						for _, lk := range lookups {
+							if dependsOn(iff.Cond, func(v ssa.Value) bool { return v == lk }) {
+								ok = true
+							}
+						}
+					}
+				}
+			}
+		}
+		switch {
+		case !found:
+			c.Undecided(rule, "zson.stringToEnum builds an enum value", "no construction of zson.Enum found")
+		case ok:
+			c.OK(rule, "zson.stringToEnum builds an enum value", fn.Pos(), "only where Lookup found the symbol")
+		default:
+			c.Fail(rule, "zson.stringToEnum builds an enum value", fn.Pos(), "a string cast to an enum type becomes an enum value without a test that it names one of the symbols: `\"foo\"(enum(a,b))` is encoded with selector -1 and the first formatter indexes Symbols out of range")
+		}
+	}
+	// (c)
+	if fn := p.Func("(*zio/zjsonio.Reader).decodeRecord"); fn == nil {
+		c.Undecided(rule, "(*zio/zjsonio.Reader).decodeRecord", "anchor does not resolve")
+	} else {
+		isFields := func(v ssa.Value) bool {
+			return dependsOn(v, func(w ssa.Value) bool {
+				fa, ok := w.(*ssa.FieldAddr)
+				return ok && fieldName(fa.X.Type(), fa.Field) == "Fields"
+			})
+		}
+		isValues := func(v ssa.Value) bool {
+			sl, ok := v.Type().Underlying().(*types.Slice)
+			if !ok {
+				return false
+			}
+			_, isIface := sl.Elem().Underlying().(*types.Interface)
+			return isIface
+		}
+		ok := false
+		for _, b := range fn.Blocks {
+			for _, in := range b.Instrs {
+				cmp, isCmp := in.(*ssa.BinOp)
+				if !isCmp {
+					continue
+				}
+				switch cmp.Op {
+				case token.LSS, token.GTR, token.NEQ, token.LEQ, token.GEQ, token.EQL:
+				default:
+					continue
+				}
+				lv := lenOf(isValues)
+				lf := lenOf(isFields)
+				direct := func(v ssa.Value, f func(ssa.Value) bool) bool { return f(v) }
+				if (direct(cmp.X, lv) && direct(cmp.Y, lf)) || (direct(cmp.Y, lv) && direct(cmp.X, lf)) {
+					ok = true
+				}
+			}
+		}
+		if ok {
+			c.OK(rule, "(*zio/zjsonio.Reader).decodeRecord compares value and field counts", fn.Pos(), "len(values) is compared with len(fields)")
+		} else {
+			c.Fail(rule, "(*zio/zjsonio.Reader).decodeRecord compares value and field counts", fn.Pos(), "only surplus values are rejected: a record value with fewer elements than its type has fields is read without error and the first writer panics with `bad uvarint` while walking the missing fields")
+		}
+	}
+	// (d)
+	if fn := p.Func("super.checkEnum"); fn == nil {
+		c.Undecided(rule, "super.checkEnum", "anchor does not resolve")
+	} else {
+		signed := false
+		found := false
+		for _, b := range fn.Blocks {
+			for _, in := range b.Instrs {
+				cmp, isCmp := in.(*ssa.BinOp)
+				if !isCmp {
+					continue
+				}
+				switch cmp.Op {
+				case token.GEQ, token.GTR, token.LSS, token.LEQ:
+				default:
+					continue
+				}
+				found = true
+				for _, v := range []ssa.Value{cmp.X, cmp.Y} {
+					if cv, ok := v.(*ssa.Convert); ok {
+						from, ok1 := cv.X.Type().Underlying().(*types.Basic)
+						to, ok2 := cv.Type().Underlying().(*types.Basic)
+						if ok1 && ok2 && from.Info()&types.IsUnsigned != 0 && to.Info()&types.IsUnsigned == 0 && to.Info()&types.IsInteger != 0 {
+							signed = true
+						}
+					}
+				}
+			}
+		}
+		switch {
+		case !found:
+			c.Undecided(rule, "super.checkEnum selector range test", "no range comparison found")
+		case signed:
+			c.Fail(rule, "super.checkEnum selector range test", fn.Pos(), "the unsigned selector is converted to a signed int before it is compared with the symbol count: a selector of 2^63 or more wraps negative, passes Validate, and the formatter indexes Symbols out of range")
+		default:
+			c.OK(rule, "super.checkEnum selector range test", fn.Pos(), "compared as unsigned")
+		}
+	}
+}
+
+// ---- C07-N3: a sort that puts nulls first does not make its output "sorted" for the optimizer.
+//
+// Join (which then skips its own sort), summarize and merge assume the null placement of a plain
+// sort.  optimizer.sortKeysOfSort is what tells them the stream is sorted, so it must report keys
+// only for sorts without the nulls-first option.
+func runNullsFirstSortNotPropagated(c *Ctx, rule string) {
+	p := c.P
+	c.Rule(rule, "optimizer.sortKeysOfSort returns sort keys only on the false edge of a test of Sort.NullsFirst: downstream operators that skip work on sorted input (join, summarize, merge) expect nulls where a sort without the option puts them")
+	fn := p.Func("compiler/optimizer.sortKeysOfSort")
+	if fn == nil {
+		c.Undecided(rule, "compiler/optimizer.sortKeysOfSort", "anchor does not resolve")
+		return
+	}
+	var tests []ssa.Value
+	for _, b := range fn.Blocks {
+		for _, in := range b.Instrs {
+			if u, ok := in.(*ssa.UnOp); ok && u.Op == token.MUL {
+				if fa, ok := u.X.(*ssa.FieldAddr); ok && fa.X == fn.Params[0] && fieldName(fa.X.Type(), fa.Field) == "NullsFirst" {
+					tests = append(tests, u)
+				}
+			}
+		}
+	}
+	n, bad := 0, 0
+	for _, b := range fn.Blocks {
+		if len(b.Instrs) == 0 {
+			continue
+		}
+		ret, ok := b.Instrs[len(b.Instrs)-1].(*ssa.Return)
+		if !ok || len(ret.Results) != 1 || isNilConst(ret.Results[0]) {
+			continue
+		}
+		n++
+		guarded := false
+		for _, t := range tests {
+			if falseEdgeDominatesOrSelf(t, b) {
+				guarded = true
+			}
+		}
+		if !guarded {
+			bad++
+			c.Fail(rule, "compiler/optimizer.sortKeysOfSort reports keys for a nulls-first sort", ret.Pos(), "sort keys are reported whatever the sort's null placement: after `sort -nulls first b` a join believes its input sorted, skips its own sort, and its comparator (nulls are the maximum) lets the leading null row consume the whole other side - every non-null row loses its match in the optimized plan only")
+		}
+	}
+	switch {
+	case n == 0:
+		c.Undecided(rule, "compiler/optimizer.sortKeysOfSort", "no return of sort keys found")
+	case bad == 0:
+		c.OK(rule, "compiler/optimizer.sortKeysOfSort reports keys for a nulls-first sort", fn.Pos(), "keys are reported only where NullsFirst is false")
 	}
 }
